@@ -198,6 +198,9 @@ namespace chaiscript {
         return true;
       }
 
+      // a file shorter than the BOM leaves the stream in a failed state: clear it, or neither the
+      // seek nor the read of the contents that follows has any effect
+      infile.clear();
       infile.seekg(0);
 
       return false;
